@@ -115,6 +115,18 @@ def run_case(vk, case):
         cur = profile_after(spec, winners)
         remaining = [c for c in spec["c"] if c not in winners]
         fp = {names.idx[str(c)]: Fraction(v) for c, v in e.election_states[rnd - 1].scores.items()}
+        # the scores recorded for the previous round must be the first-place votes of the profile without the
+        # winners so far (the proportional-to-squares branch draws from them)
+        reduced = {"c": remaining, "b": []}
+        for b in spec["b"]:
+            r = [[c for c in s0 if c not in winners] for s0 in b["r"]]
+            r = [s0 for s0 in r if s0]
+            if r:
+                reduced["b"].append({"r": r, "w": b["w"], "s": []})
+        fp_true = ref_scores(reduced, [1]) if reduced["b"] else {c: Fraction(0) for c in remaining}
+        if {c: v for c, v in fp.items()} != {c: v for c, v in fp_true.items()}:
+            fail("recorded-scores-not-first-place-votes-of-current-profile",
+                 f"round {rnd - 1}: recorded {fp} but the profile without {winners} gives {fp_true}")
         branch = "rd"
         if rule == "BoostedRandomDictator":
             if ci >= len(calls) or calls[ci][0] != "uniform" or (calls[ci][1], calls[ci][2]) != (0, 1):
